@@ -153,7 +153,8 @@ def renderWord (renderBody : Nat → R (Option Node)) (w : AWord) (asAssign : Op
         -- a reserved word used as a plain argument is rendered bare
         let isRw := s0.head? == some '\u0001'
         let s := if isRw then s0.drop 1 else s0
-        if isRw then rtag "+reserved-word-as-argument"
+        -- a word `{` / `}` makes the *next* word a reserved-word position for bashlex (finding D25)
+        if isRw && (s == ['{'] || s == ['}']) then rtag "+brace-as-argument"
         -- quoting style of a literal piece
         let style ← if w.dq || isRw then pure 0 else pick 5
         if style == 1 && !s.isEmpty then
